@@ -6,6 +6,7 @@ import (
 	"context"
 	"fmt"
 	"math"
+	"strings"
 	"sync"
 
 	"github.com/NethermindEth/juno/db/memory"
@@ -68,6 +69,7 @@ func getBase(key string, seed uint64, newState, plain bool, total, stored int) (
 	}
 	opt := lib.DefaultGenOptions()
 	ch := newChain(lib.NewRNG(seed), newState, opt)
+	ch.clean = strings.HasPrefix(key, "clean/")
 	node, d := lib.NewNode(ch.g.Net, newState)
 	b := &baseImage{ch: ch, db: d, height: stored - 1}
 	for i := 0; i < total; i++ {
@@ -88,7 +90,7 @@ func getBase(key string, seed uint64, newState, plain bool, total, stored int) (
 
 // cloneWorld starts a node process on a copy of the base image.
 func cloneWorld(e *env, b *baseImage, pcfg prunerCfg, cutoff uint64, name string, spec any) *world {
-	w := &world{res: e.res, ch: b.ch, name: name, spec: spec, drv: e.drv, fdrv: e.fdrv, fixed: e.fixed, pcfg: pcfg,
+	w := &world{res: e.res, ch: b.ch, name: name, spec: spec, drv: e.drv, fdrv: e.fdrv, fixed: e.fixed, mig: e.mig, pcfg: pcfg,
 		height: b.height, l1: -1, cutoff: cutoff, situation: "steady", quiescent: true}
 	w.nodeDB = b.db.Copy()
 	w.shadowDB = b.db.Copy()
@@ -130,6 +132,7 @@ func allJobs(f lib.Flags) []job {
 	jobs = append(jobs, arithJobs(f)...)
 	jobs = append(jobs, batchJobs(f)...)
 	jobs = append(jobs, minAgeJobs(f)...)
+	jobs = append(jobs, migrationJobs(f)...)
 	jobs = append(jobs, randomJobs(f)...)
 	return jobs
 }
